@@ -90,7 +90,8 @@ theorem decLeaf_encLeaf (l : Leaf) (v : Val) (b rest : Bytes) (h : encLeaf l v =
     rename_i n
     split at h
     · rename_i hn
-      simp [decLeaf, decInt_encInt k .le _ b rest h, hn]
+      have : (if n = 0 then 0 else 1) = n := by split <;> omega
+      simp [decLeaf, decInt_encInt k .le _ b rest h, this]
     · cases h
   | enumT k e vals =>
     cases v <;> simp only [encLeaf] at h <;> try (cases h)
